@@ -73,6 +73,7 @@ ONNX_NAME = {
     "Concat": "Concat", "Clip": "Clip", "ReduceSum": "ReduceSum", "Split": "Split", "TopK": "TopK",
     "If": "If", "Loop": "Loop", "Scan": "Scan", "Reshape": "Reshape",
     "Sub": "Sub", "Max": "Max", "Min": "Min", "Transpose": "Transpose",
+    "Sum": "Sum", "Mean": "Mean", "Einsum": "Einsum",
     "LabelEncoder": "LabelEncoder", "Scaler": "Scaler", "Binarizer": "Binarizer",
     "BitAnd": "BitwiseAnd", "BitOr": "BitwiseOr", "BitXor": "BitwiseXor", "BitNot": "BitwiseNot",
     "Gelu": "Gelu", "DFT": "DFT",
@@ -304,7 +305,14 @@ class _Gen:
             t = self.tyof(x)
             parts = [x] + [self.find_or_make(active, t, p_reuse=0.9) for _ in range(rng.choice([0, 1, 1, 2]))]
             rng.shuffle(parts)
-            self.add(rng.choice(["Max", "Min"]), parts, tys=[t])
+            kinds = ["Max", "Min"]
+            if t[0] == "f32":
+                kinds += ["Sum", "Sum"] + (["Mean"] if len(parts) in (1, 2) else [])
+            if len(t[1]) >= 1 and len(parts) >= 2:
+                kinds += ["Einsum"]
+            kind = rng.choice(kinds)
+            attrs = {"equation": ",".join(["..."] * len(parts)) + "->..."} if kind == "Einsum" else None
+            self.add(kind, parts, attrs=attrs, tys=[t])
             return
         if choice == "transpose":
             x = self.pick(self.usable(active, lambda u: not u[2] and concrete(u) and len(u[1]) >= 2))
@@ -739,6 +747,13 @@ def typecheck(prog) -> list[str]:
                 ts = [T(r) for r in ins]
                 ok = 1 <= len(ts) <= 3 and ts[0][0] in NUMERIC and not ts[0][2] and concrete(ts[0]) and all(
                     same_ty(t, ts[0]) for t in ts) and same_ty(out[0], ts[0])
+            elif op in ("Sum", "Mean", "Einsum"):
+                ts = [T(r) for r in ins]
+                ok = 1 <= len(ts) <= 4 and not ts[0][2] and concrete(ts[0]) and all(same_ty(t, ts[0]) for t in ts) and same_ty(out[0], ts[0])
+                if op == "Einsum":
+                    ok = ok and ts[0][0] in NUMERIC and len(ts[0][1]) >= 1 and len(ts) >= 2 and n["attrs"]["equation"] == ",".join(["..."] * len(ts)) + "->..."
+                else:
+                    ok = ok and ts[0][0] == "f32" and (op == "Sum" or len(ts) in (1, 2, 4))
             elif op == "Transpose":
                 x = T(ins[0])
                 pm = n["attrs"]["perm"]
@@ -955,6 +970,13 @@ def eval_numpy(prog, binding: dict[int, np.ndarray]):
                 for j in range(1, len(n["ins"])):
                     acc_ = (np.maximum if op == "Max" else np.minimum)(acc_, inp(j))
                 out = [np.array(acc_)]
+            elif op in ("Sum", "Mean", "Einsum"):
+                acc_ = inp(0)
+                for j in range(1, len(n["ins"])):
+                    acc_ = (acc_ * inp(j)) if op == "Einsum" else (acc_ + inp(j))
+                if op == "Mean":
+                    acc_ = acc_ / np.float32(len(n["ins"]))
+                out = [np.array(acc_, dtype=inp(0).dtype)]
             elif op == "Transpose":
                 out = [np.transpose(inp(0), n["attrs"]["perm"])]
             elif op == "Neg":
@@ -1156,17 +1178,17 @@ def layout_view(arr: np.ndarray, layout: str) -> np.ndarray:
     return v
 
 
-def const_scalar(op, attrs):
+def const_scalar(op, attrs, own_attr=list):
     """A Constant written through its scalar / list attributes (or a numpy *scalar* as `value`)."""
     f_, v_ = attrs["form"], attrs["value"]
     if f_ == "float":
         return op.constant(value_float=v_)
     if f_ == "floats":
-        return op.constant(value_floats=list(v_))
+        return op.constant(value_floats=own_attr(v_))
     if f_ == "int":
         return op.constant(value_int=v_)
     if f_ == "ints":
-        return op.constant(value_ints=list(v_))
+        return op.constant(value_ints=own_attr(v_))
     return op.constant(value=DT[attrs["dtype"]](v_))
 
 
@@ -1206,10 +1228,17 @@ class Realised:
         self.extras = 0
         self.style = ""
         self.dims = "concrete"  # how the model inputs were declared
+        self.owned = 0  # caller-owned lists handed to constructors
+        self.mutations: dict[str, int] = {}  # … and what the caller did to them afterwards
+        self.events: list = []  # [0, list object, [var ids]] = the caller sets the list's contents, [1, list object] = call
+        self.calls: list[int] = []  # abstract node constructed by the i-th call event
+        self.var_ids: dict[int, int] = {}  # id(Var) -> small number (Vars stay alive in `keep`)
+        self.keep: list = []
         self.unobservable: Optional[str] = None  # set when a spox internal could not be read
 
 
-def realise(prog, rng: random.Random, style: str = "lazy", twins: bool = False, dims: str = "concrete") -> Realised:
+def realise(prog, rng: random.Random, style: str = "lazy", twins: bool = False, dims: str = "concrete",
+            mutate: bool = True) -> Realised:
     """Construct `prog` with spox.  `style` controls *how the program is written in Python*:
 
     lazy            every value is created on first demand (inside whichever callback needs it first,
@@ -1231,12 +1260,17 @@ def realise(prog, rng: random.Random, style: str = "lazy", twins: bool = False, 
     from spox import Tensor, argument
 
     initializer = None
+    initializers = []  # every route to an initializer this tree offers; chosen per node
     for modname in ("spox._future", "spox._graph", "spox"):
         try:
-            initializer = getattr(importlib.import_module(modname), "initializer")
-            break
+            f_ = getattr(importlib.import_module(modname), "initializer")
+            if f_ not in initializers:
+                initializers.append(f_)
         except Exception:  # noqa: BLE001
             continue
+    if initializers:
+        def initializer(arr):
+            return initializers[(arr.size + len(R.created)) % len(initializers)](arr)
     if initializer is None and any(n["op"] == "init" for n in prog["nodes"]):
         raise HarnessError("no `initializer` constructor found in spox._future / spox._graph")
 
@@ -1278,6 +1312,109 @@ def realise(prog, rng: random.Random, style: str = "lazy", twins: bool = False, 
         else:
             op.add(v, v)
 
+    # ---- caller-owned containers: every sequence of Vars handed to a constructor is a mutable `list` that the
+    # "caller" keeps and MUTATES after the constructor returned (append — also of the constructor's own
+    # result —, item assignment, clear, reverse, deletion) or re-uses (cleared and refilled) for the next
+    # call; the program's dataflow is what was constructed.  (own = hand out, disown = mutate afterwards)
+    mrng = random.Random(f"own:{style}:{len(nodes)}:{prog.get('opset', 17)}")
+    shared: list = []  # one list object re-used by consecutive calls
+    current: list = [-1]  # abstract node whose constructor is being called
+    frames: list = [[]]  # lists handed to the constructor call in flight, per nested make()
+    busy = [False]  # the shared list is in the hands of a constructor that has not returned yet
+
+    list_ids: dict[int, int] = {}
+
+    def vid(v):
+        if id(v) not in R.var_ids:
+            R.var_ids[id(v)] = len(R.var_ids)
+            R.keep.append(v)
+        return R.var_ids[id(v)]
+
+    def event_set(lst):
+        R.keep.append(lst)
+        R.events.append([0, list_ids.setdefault(id(lst), len(list_ids)), [vid(v) for v in lst]])
+
+    def own(seq):
+        seq = list(seq)
+        if not mutate:
+            return seq
+        if not busy[0] and mrng.random() < 0.4:
+            shared.clear()  # the previous call's operands vanish from the list it was given
+            shared.extend(seq)
+            lst = shared
+            busy[0] = True
+        else:
+            lst = seq
+        frames[-1].append(lst)
+        R.owned += 1
+        event_set(lst)
+        R.events.append([1, list_ids[id(lst)]])
+        R.calls.append(current[-1])
+        return lst
+
+    def own_attr(values):
+        """A list-valued attribute handed over as the caller's own list (emptied / overwritten afterwards)."""
+        lst = list(values)
+        if mutate:
+            attr_lists.append(lst)
+        return lst
+
+    def own_array(arr):
+        """The ndarray behind a Constant / initializer is the caller's: overwritten after construction."""
+        if mutate:
+            arrays.append(arr)
+        return arr
+
+    attr_lists: list = []
+    arrays: list = []
+
+    def disown(outs):
+        for lst in attr_lists:
+            if lst and mrng.random() < 0.5:
+                lst[0] = lst[0] + 1
+            else:
+                lst.clear()
+            R.mutations["attribute-list"] = R.mutations.get("attribute-list", 0) + 1
+        attr_lists.clear()
+        for arr in arrays:
+            try:
+                if arr.size and arr.flags.writeable:
+                    arr[...] = arr.dtype.type(1) if arr.dtype != np.bool_ else ~arr
+                    if arr.dtype != np.bool_:
+                        arr += arr.dtype.type(41)
+                    R.mutations["ndarray-overwritten"] = R.mutations.get("ndarray-overwritten", 0) + 1
+            except (ValueError, TypeError):
+                pass
+        arrays.clear()
+        pending = frames[-1]
+        while pending:
+            lst = pending.pop()
+            if lst is shared:
+                busy[0] = False
+            if lst is shared and mrng.random() < 0.5:
+                continue  # left as it is until the next call re-uses it
+            others = [v for v in R.vars.values()]
+            kind = mrng.choice(["append", "append-own-result", "setitem", "setitem-own-result", "clear", "reverse", "del", "insert"])
+            if kind == "append" and others:
+                lst.append(mrng.choice(others))
+            elif kind == "append-own-result":
+                lst.append(outs[0])
+            elif kind == "setitem" and lst and others:
+                lst[mrng.randrange(len(lst))] = mrng.choice(others)
+            elif kind == "setitem-own-result" and lst:
+                lst[0] = outs[-1]
+            elif kind == "clear":
+                lst.clear()
+            elif kind == "reverse":
+                lst.reverse()
+            elif kind == "del" and lst:
+                del lst[mrng.randrange(len(lst))]
+            elif others:
+                lst.insert(0, mrng.choice(others))
+            R.mutations[kind] = R.mutations.get(kind, 0) + 1
+            if id(lst) in list_ids:
+                event_set(lst)
+
     def var(r):
         make(r[0])
         return R.vars[(r[0], r[1])]
@@ -1295,7 +1432,14 @@ def realise(prog, rng: random.Random, style: str = "lazy", twins: bool = False, 
             if dims != "concrete" and not n["attrs"].get("range") == "trip":
                 drng = random.Random(f"{k}:{dims}:{len(nodes)}")
                 shp = tuple((f"d{d_}" if dims == "symbolic" else None) if drng.random() < 0.6 else d_ for d_ in shp)
-            register(k, [argument(Tensor(DT[t[0]], shp))])
+            if mutate and shp and (k + len(nodes)) % 2:
+                shp_l = list(shp)  # the shape is the caller's list, grown once the type object exists
+                tt = Tensor(DT[t[0]], shp_l)
+                shp_l.append(7)
+                R.mutations["shape-list"] = R.mutations.get("shape-list", 0) + 1
+            else:
+                tt = Tensor(DT[t[0]], shp)
+            register(k, [argument(tt)])
             return
         order = [j for j, r in enumerate(n["ins"]) if r is not None]
         if base != "eager":
@@ -1303,6 +1447,15 @@ def realise(prog, rng: random.Random, style: str = "lazy", twins: bool = False, 
         for j in order:
             make(n["ins"][j][0])
         a = [None if r is None else R.vars[(r[0], r[1])] for r in n["ins"]]
+        frames.append([])
+        current.append(k)
+        try:
+            construct(k, n, o, a)
+        finally:
+            frames.pop()
+            current.pop()
+
+    def construct(k, n, o, a):
 
         def callback(body):
             def cb(*formals):
@@ -1316,6 +1469,9 @@ def realise(prog, rng: random.Random, style: str = "lazy", twins: bool = False, 
                         create_upfront(frozenset(body["args"]))
                     res = [var(r) for r in body["res"]]
                     maybe_extra()
+                    if mutate:  # the list a callback returns is the caller's too: mutated once the constructor is back
+                        frames[-1].append(res)
+                        R.owned += 1
                     return res
                 finally:
                     depth[0] -= 1
@@ -1323,13 +1479,13 @@ def realise(prog, rng: random.Random, style: str = "lazy", twins: bool = False, 
             return cb
 
         if o == "init":
-            outs = [initializer(layout_view(np_const(n), n["attrs"].get("layout", "C")))]
+            outs = [initializer(own_array(layout_view(np_const(n), n["attrs"].get("layout", "C"))))]
         elif o == "Constant":
-            outs = [op.constant(value=layout_view(np_const(n), n["attrs"].get("layout", "C")))]
+            outs = [op.constant(value=own_array(layout_view(np_const(n), n["attrs"].get("layout", "C"))))]
         elif o == "Reshape":
             outs = [op.reshape(a[0], a[1])]
         elif o == "Scan":
-            outs = list(op.scan(a, body=callback(n["subs"][0]), num_scan_inputs=n["attrs"]["num_scan_inputs"]))
+            outs = list(op.scan(own(a), body=callback(n["subs"][0]), num_scan_inputs=n["attrs"]["num_scan_inputs"]))
         elif o == "Add":
             outs = [op.add(a[0], a[1])]
         elif o == "Mul":
@@ -1337,7 +1493,7 @@ def realise(prog, rng: random.Random, style: str = "lazy", twins: bool = False, 
         elif o == "Sub":
             outs = [op.sub(a[0], a[1])]
         elif o == "ConstScalar":
-            outs = [const_scalar(op, n["attrs"])]
+            outs = [const_scalar(op, n["attrs"], own_attr)]
         elif o == "Div":
             outs = [op.div(a[0], a[1])]
         elif o == "Gather":
@@ -1345,10 +1501,10 @@ def realise(prog, rng: random.Random, style: str = "lazy", twins: bool = False, 
         elif o == "LeakyRelu":
             outs = [op.leaky_relu(a[0], alpha=n["attrs"]["alpha"])]
         elif o == "LabelEncoder":
-            outs = [ml.label_encoder(a[0], keys_int64s=n["attrs"]["keys"], values_int64s=n["attrs"]["values"],
+            outs = [ml.label_encoder(a[0], keys_int64s=own_attr(n["attrs"]["keys"]), values_int64s=own_attr(n["attrs"]["values"]),
                                      default_int64=n["attrs"]["default"])]
         elif o == "Scaler":
-            outs = [ml.scaler(a[0], offset=[n["attrs"]["offset"]], scale=[n["attrs"]["scale"]])]
+            outs = [ml.scaler(a[0], offset=own_attr([n["attrs"]["offset"]]), scale=own_attr([n["attrs"]["scale"]]))]
         elif o == "Binarizer":
             outs = [ml.binarizer(a[0], threshold=n["attrs"]["threshold"])]
         elif o == "Gelu":
@@ -1364,11 +1520,17 @@ def realise(prog, rng: random.Random, style: str = "lazy", twins: bool = False, 
         elif o == "BitXor":
             outs = [op.bitwise_xor(a[0], a[1])]
         elif o == "Max":
-            outs = [op.max(a)]
+            outs = [op.max(own(a))]
         elif o == "Min":
-            outs = [op.min(a)]
+            outs = [op.min(own(a))]
+        elif o == "Sum":
+            outs = [op.sum(own(a))]
+        elif o == "Mean":
+            outs = [op.mean(own(a))]
+        elif o == "Einsum":
+            outs = [op.einsum(own(a), equation=n["attrs"]["equation"])]
         elif o == "Transpose":
-            outs = [op.transpose(a[0], perm=n["attrs"]["perm"])]
+            outs = [op.transpose(a[0], perm=own_attr(n["attrs"]["perm"]))]
         elif o == "Neg":
             outs = [op.neg(a[0])]
         elif o == "Abs":
@@ -1384,7 +1546,7 @@ def realise(prog, rng: random.Random, style: str = "lazy", twins: bool = False, 
         elif o == "Where":
             outs = [op.where(a[0], a[1], a[2])]
         elif o == "Concat":
-            outs = [op.concat(a, axis=n["attrs"]["axis"])]
+            outs = [op.concat(own(a), axis=n["attrs"]["axis"])]
         elif o == "Clip":
             outs = [op.clip(a[0], a[1], a[2])]
         elif o == "ReduceSum":
@@ -1401,12 +1563,13 @@ def realise(prog, rng: random.Random, style: str = "lazy", twins: bool = False, 
         elif o == "If":
             outs = list(op.if_(a[0], then_branch=callback(n["subs"][0]), else_branch=callback(n["subs"][1])))
         elif o == "Loop":
-            outs = list(op.loop(a[0], a[1], a[2:], body=callback(n["subs"][0])))
+            outs = list(op.loop(a[0], a[1], own(a[2:]), body=callback(n["subs"][0])))
         else:
             raise HarnessError(f"unknown operator {o}")
         if len(outs) != len(n["ty"]):
             raise ConstructorShapeMismatch(f"{o}: {len(outs)} outputs, abstract node has {len(n['ty'])}")
         register(k, outs)
+        disown(outs)
         maybe_extra()
 
     if twins:  # history: ==-equal but different attribute values, constructed first and never requested
@@ -2686,3 +2849,67 @@ def no_input_programs() -> Iterator[tuple[dict, str]]:
         else:
             out = iff(loop(s), (b, 0))
         yield {"nodes": nodes, "outputs": [list(out)], "opset": 17}, shape
+
+
+def observed_sequence_operands(R: Realised):
+    """Observation (spox internals, guarded by the caller): for the i-th constructor call that was handed a
+    caller-owned list, what the constructed node holds NOW (after all the caller's mutations) in its
+    sequence-of-Vars field: (type name of the container, var numbers).  Unknown Vars are numbered -1."""
+    out = []
+    for k in R.calls:
+        node = R.vars[(k, 0)]._op
+        fields = node.inputs.get_fields()
+        seqs = [v for v in fields.values() if v is not None and not hasattr(v, "_op")]
+        if len(seqs) != 1:
+            raise HarnessError(f"node {k}: {len(seqs)} sequence fields")
+        out.append((type(seqs[0]).__name__, [R.var_ids.get(id(v), -1) for v in seqs[0]]))
+    return out
+
+
+def variadic_programs() -> Iterator[tuple[dict, str]]:
+    """Every sequence-taking constructor of the vocabulary (Max Min Sum Mean Einsum Concat) with 1-4 operands —
+    repeated operands included — in the main graph, inside an If branch (closed-over operands) and inside a Loop
+    body (operands depending on the formals), plus a Loop and a Scan whose `v_initial` / state list holds two
+    values: with the realiser's caller-owned lists every such call is followed by a mutation of the list it was
+    given.  Yields (prog, tag)."""
+    F, B_, S = ty("f32", [N]), ty("bool", []), ty("i64", [])
+    counts = {"Max": (1, 2, 3), "Min": (1, 3), "Sum": (1, 2, 3, 4), "Mean": (1, 2, 4), "Einsum": (2, 3), "Concat": (1, 2, 3)}
+    for kind, ks in counts.items():
+        for k in ks:
+            for place in ("main", "if", "loop"):
+                nodes: list[dict] = []
+
+                def add(op, ins=(), subs=(), attrs=None, tys=()):
+                    nodes.append({"op": op, "ins": [list(r) if r else None for r in ins], "subs": list(subs), "attrs": dict(attrs or {}), "ty": [list(t) for t in tys]})
+                    return len(nodes) - 1
+
+                x = add("arg", attrs={"role": "main"}, tys=[F])
+                y = add("arg", attrs={"role": "main"}, tys=[F])
+                c = add("arg", attrs={"role": "main"}, tys=[B_])
+                n = add("arg", attrs={"role": "main", "range": "trip"}, tys=[S])
+                ny = add("Neg", [(y, 0)], tys=[F])
+
+                def apply(base):
+                    pool = [base, (ny, 0), (x, 0), base][:k]
+                    if kind == "Concat":
+                        cc = add("Concat", pool, attrs={"axis": 0}, tys=[ty("f32", [N * k])])
+                        sp = add("Split", [(cc, 0), None], attrs={"axis": 0, "outputs": k}, tys=[F] * k) if k > 1 else cc
+                        return (sp, k - 1)
+                    attrs = {"equation": ",".join(["..."] * k) + "->..."} if kind == "Einsum" else None
+                    return (add(kind, pool, attrs=attrs, tys=[F]), 0)
+
+                if place == "main":
+                    out = apply((x, 0))
+                elif place == "if":
+                    r = apply((x, 0))
+                    out = (add("If", [(c, 0)], [{"args": [], "res": [list(r)]}, {"args": [], "res": [[y, 0]]}], tys=[F]), 0)
+                else:
+                    it = add("arg", attrs={"role": "formal"}, tys=[ty("i64", [], True)])
+                    cn = add("arg", attrs={"role": "formal"}, tys=[ty("bool", [], True)])
+                    a1 = add("arg", attrs={"role": "formal"}, tys=[F])
+                    a2 = add("arg", attrs={"role": "formal"}, tys=[F])
+                    r = apply((a1, 0))
+                    lp = add("Loop", [(n, 0), None, (x, 0), (y, 0)], [{"args": [it, cn, a1, a2], "res": [[cn, 0], list(r), [a1, 0]]}], tys=[F, F])
+                    out = (add("Add", [(lp, 0), (lp, 1)], tys=[F]), 0)
+                opset = 18 if kind == "Concat" and k > 1 else 17
+                yield {"nodes": nodes, "outputs": [list(out)], "opset": opset}, f"{kind}x{k}@{place}"
